@@ -6,10 +6,13 @@
 (* injected while they ran, and the new error-channel lines (errs).          *)
 EXTENDS MonBase
 
-VARIABLES failed,    \* ids of records during whose log call a failure was injected
+VARIABLES failed,    \* ids of records that may be missing: their own write failed (fs:write), or the writer could not be
+                     \* initialised for them (a failure during the call while no file was open yet: "opening or creating a
+                     \* file"). A record whose call only saw a failing ROTATION is written to the file that is still open.
+          active,    \* a file is open: a record of this run has been written by a call without any injected failure
           seenids,   \* ids seen on disk at the previous observation
           clearId    \* number of accepted records when the failures ended (-1: not yet)
-fvars == <<bvars, failed, seenids, clearId>>
+fvars == <<bvars, failed, active, seenids, clearId>>
 
 Ids(s) == {s[j][1] : j \in 1..Len(s)}
 Errs(e) == SelectSeq(e.errs, LAMBDA x : x # "Palette")
@@ -18,8 +21,11 @@ Blocking(e) == \E j \in 1..Len(e.injp) : e.injp[j] \in {"fs:write", "fs:open", "
 
 Upd ==
     LET e == E IN
-    IF e.ev = "Begin" THEN failed' = {} /\ seenids' = {} /\ clearId' = -1
-    ELSE /\ failed' = IF e.ev = "Log" /\ e.inj > 0 THEN failed \cup {e.id} ELSE failed
+    IF e.ev = "Begin" THEN failed' = {} /\ seenids' = {} /\ clearId' = -1 /\ active' = FALSE
+    ELSE /\ failed' = IF e.ev = "Log" /\ e.inj > 0 /\ (~active \/ \E j \in 1..Len(e.injp) : e.injp[j] = "fs:write")
+                       THEN failed \cup {e.id} ELSE failed
+         /\ active' = IF e.ev \in {"Start", "Stop", "Reset"} THEN FALSE
+                       ELSE IF e.ev = "Log" /\ Ok(e) /\ e.inj = 0 THEN TRUE ELSE active
          /\ seenids' = IF e.o THEN Ids(Stream(Untwin(e.obs.files))) ELSE seenids
          /\ clearId' = IF clearId < 0 /\ e.inj > 0 /\ e.faultleft = 0 THEN Len(acc')
                        ELSE IF e.ev = "FaultOff" /\ clearId < 0 THEN Len(acc') ELSE clearId
@@ -71,9 +77,21 @@ Check ==
                                              \/ RO[j+1].recs[1][1] - 1 \in forced'))
                            /\ Cnt(5, TRUE)
                       ELSE TRUE
+                   \* ... and cleanup resumes (also in the cleanup thread): if a rotated file was begun AND closed after the
+                   \* failures ended - so that a cleanup ran after them - the limits hold again once shutdown() has returned
+                   /\ IF cc.clean /\ clearId >= 0 /\ cc.size >= 0 /\
+                         (\E j \in 1..Len(F) : IsRot(F[j]) /\ Len(F[j].recs) > 0 /\ F[j].recs[1][1] > clearId + 2)
+                      THEN Chk(e, "CleanupResumes",
+                               LET kk == IF cc.k < 0 THEN 0 ELSE cc.k
+                                   mm == IF cc.m < 0 THEN 0 ELSE cc.m
+                                   ke == IF cc.direct /\ kk = 0 THEN 1 ELSE kk
+                               IN Len(SelectSeq(F, LAMBDA f : IsRot(f) /\ ~f.z)) <= ke
+                                  /\ Len(SelectSeq(F, LAMBDA f : IsRot(f) /\ f.z)) <= mm)
+                           /\ Cnt(6, cc.bg)
+                      ELSE TRUE
               ELSE TRUE
 
-Init == BaseInit /\ failed = {} /\ seenids = {} /\ clearId = -1
+Init == BaseInit /\ failed = {} /\ active = FALSE /\ seenids = {} /\ clearId = -1
 Next == BaseStep /\ Upd /\ Check /\ Finish
 Spec == Init /\ [][Next]_fvars
 =============================================================================
